@@ -3,11 +3,64 @@ import base64
 import binascii
 import hashlib
 
+import json
+
+from lib import vf
 from lib.props import _auth
 
 
 def unhex(h):
     return "" if h == "-" else binascii.unhexlify(h).decode("latin1")
+
+
+def overlapping_exchanges(ctx, seen_jti):
+    """'a signed assertion that is unique per request ... valid for at most about thirty seconds': two back-channel exchanges of the
+    relying party {login with a pushed authorization request, code redemption, refresh grant} x the same set, the second one run to
+    completion at every yield point of the first (configuration accessors, and the accessors of the client key the signing code
+    reads after the claims are set); every client assertion the provider receives is verified; no jti may occur twice - within a
+    pair, across pairs, or with the assertions of the login driver."""
+    pre = ctx.path("assertpairs")
+    out, dt = vf.run_driver(["assertpairs", "-out", pre, "-seed", str(ctx.seed), "-tier", ctx.tier])
+    ctx.timings["assertpairs"] = round(dt, 2)
+    ctx.correspondence("assertpairs: client assertions of overlapping back-channel exchanges (real router + handlers + openid client, one exchange nested "
+                       "into the other at every accessor call) vs Model/Auth.v back_channel_auths (jti identities in order of arrival)",
+                       pre + ".in", pre + ".impl")
+    stats = {"pairs": 0, "assertions_verified": 0, "yield_points_by_first_exchange": {}, "exchanges_that_failed": 0, "kinds": set()}
+    first_use = {}
+    for line in open(pre + ".obs"):
+        o = json.loads(line)
+        stats["pairs"] += 1
+        stats["kinds"].add((o["a"], o["b"]))
+        if o["k"] == 0:
+            stats["yield_points_by_first_exchange"]["%s (then %s)" % (o["a"], o["b"])] = o["a_yield_points"]
+            if not (o["a_ok"] and o["b_ok"]):
+                raise RuntimeError("assertpairs: the exchanges do not even succeed one after the other: %s" % line[:300])
+        if not (o["a_ok"] and o["b_ok"]):
+            stats["exchanges_that_failed"] += 1
+        case = {"first_exchange": o["a"], "second_exchange": o["b"], "second_runs_at_yield_point": o["k"], "accessor": o["at_accessor"],
+                "status_first": o["a_status"], "status_second": o["b_status"], "client_secret": o["client_secret"], "iss_param": o["iss_param"]}
+        if not o["client_secret"] and len([a for a in (o["assertions"] or []) if a["phase"] in ("A", "B")]) < 2:
+            ctx.violation("c13-back-channel-request-without-assertion", "a back-channel exchange reached the provider without a client assertion", dict(case, assertions=o["assertions"]))
+        for a in o["assertions"] or []:
+            if a["digest"] == "none":
+                ctx.violation("c13-back-channel-request-without-assertion", "a %s request reached the provider without a client assertion" % a["endpoint"], dict(case, assertions=o["assertions"]))
+                continue
+            stats["assertions_verified"] += 1
+            if not (a["signature_valid"] and a["iss"] == "client-id" and a["sub"] == "client-id" and a["aud"] == "http://idp" and 0 < a["lifetime_s"] <= 30):
+                ctx.violation("c13-bad-client-assertion", "client assertion not addressed to the issuer / wrong subject / lifetime above ~30 s", dict(case, assertion=a))
+            if a["jti"] in seen_jti:
+                other = first_use.get(a["jti"])
+                ctx.violation("c13-assertion-jti-shared-by-overlapping-requests",
+                              "two back-channel requests overlapping in time carry client assertions with the SAME jti: the %s request of the %s exchange and %s "
+                              "(second exchange run at the first one's yield point %d, accessor %s)%s"
+                              % (a["endpoint"], a["phase"], ("the %s request of the %s exchange" % (other["endpoint"], other["phase"])) if other else "an earlier request",
+                                 o["k"], o["at_accessor"], "; the very same signed assertion was sent twice" if other and other["digest"] == a["digest"] else ""),
+                              dict(case, assertion=a, earlier_assertion=other, all_assertions_of_this_pair=o["assertions"]))
+            seen_jti.add(a["jti"])
+            first_use.setdefault(a["jti"], a)
+    stats["kinds"] = sorted("%s/%s" % k for k in stats["kinds"])
+    ctx.nontrivial += stats["pairs"]
+    return stats
 
 
 def run(ctx):
@@ -128,7 +181,9 @@ def run(ctx):
             if keys != {"client_id", "request_uri"}:
                 ctx.violation("c13-par-leaks-parameters", "with PAR the browser URL carries more than client_id and request_uri",
                               dict(case, keys=sorted(keys), par_mode=o.get("par_mode"), par_replies=o.get("par_replies")))
+    pairs = overlapping_exchanges(ctx, seen_jti)
     ctx.nontrivial += len(distinct)
+    ctx.extra["overlapping_back_channel_exchanges"] = pairs
     ctx.extra["input_distribution"] = {"requests": len(obs), "redirected_to_provider": n302, "distinct_random_values": len(seen_atoms),
                                        "client_assertions_verified": len(seen_jti),
                                        "par_retries_re_sending_the_same_assertion": reposts,
@@ -137,7 +192,10 @@ def run(ctx):
     ctx.rule = ("login / logout requests through the real router over ingress sets (single, prefixed, multi-host, nested prefixes, ports) x acr default {none, supported, legacy, unsupported} "
                 "x PAR on/off x PAR endpoint behaviour {healthy, 4xx json/text, 5xx once, twice, for the whole 5 s retry budget, undecodable 201, 201 without request_uri, "
                 "never answering (client timeout), connection refused} x client secret / private key x Host {configured, foreign, empty} x X-Forwarded-Host x level/locale/prompt values (supported, legacy, unsupported, hostile bytes); "
-                "distinct_nontrivial = distinct (request, configuration) pairs")
+                "distinct_nontrivial = distinct (request, configuration) pairs; "
+                "private-key client authentication: ordered pairs of back-channel exchanges {PAR login, code redemption, refresh grant} x the same set, the second "
+                "run to completion at every accessor call of the first (configuration accessors and the client key's Algorithm / KeyID / Raw): every client assertion "
+                "received by the provider verified, jti pairwise distinct over the whole run")
     ctx.assumptions += ["crypto/rand yields unpredictable bytes (the theorem shows the values are fresh draws used nowhere else; entropy is assumed)",
                         "S256 is modelled as an injective symbol", "provider = the harness's fake provider",
                         "'a signed assertion that is unique per request' is read per HTTP request: every POST to the PAR / token endpoint, retries included, must carry a new jti",
